@@ -51,12 +51,13 @@ def random_calls(rng: random.Random):
     n = rng.randint(0, 12)
     typ = rng.choice(["insertion", "deletion"])
     calls = []
+    ids = rng.sample(range(1, 140), n)      # short and long ids: some are decimal substrings of others
     for i in range(n):
         ch = rng.randint(1, 3)
         rs = rng.choice([rng.randint(0, 400000), rng.randint(0, 60000)])
         re_ = rs + rng.randint(500, 60000)
         ln = rng.randint(2001, 90000) * (-1 if typ == "insertion" else 1)
-        calls.append({"type": typ, "chr": ch, "rs": rs, "re": re_, "qid": 100 + i, "qs": rng.randint(0, 10 ** 5),
+        calls.append({"type": typ, "chr": ch, "rs": rs, "re": re_, "qid": ids[i], "qs": rng.randint(0, 10 ** 5),
                       "qe": rng.randint(0, 10 ** 5), "len": ln})
     calls.sort(key=lambda c: (c["chr"], c["re"]))
     return calls
